@@ -22,6 +22,29 @@ reg("C01",
     "runtime trace monitor + differential twin oracle over generated clients", "DESIGN.md §4 C01")
 
 
+reg("C02",
+    "Exploration: the expansion recorder hook logs the token trees the macro received and returned inside real rustc "
+    "processes; an offline checker compares them leaf by leaf (fn: output starts with the input; mod: header and items are a "
+    "prefix, trait+impl appended, re-export after; impl: inherent block equals the input minus `Trait for`), including punctuation "
+    "spacing inside bodies. Holds for the generated corpus (token-soup bodies, attributes, qualifiers, item mixes).",
+    "Trusts the recorder's serialisation (self-consistent: same code serialises input and output) and rustc handing the macro the tokens it shows.",
+    "expansion recorder hook + offline token-prefix oracle", "DESIGN.md §4 C02")
+
+reg("C15",
+    "Exploration: grammar fuzz of attribute arguments, parameter patterns, trait methods and unsupported items through real rustc; "
+    "the recorder's begin/end/panic events show whether an expansion returned, every returned output is re-parsed by the nightly "
+    "parser, and the diagnostic stream is matched against the pinned table of documented misuses (message and line).",
+    "Trusts rustc's JSON diagnostics and the nightly parser as the parse oracle; inputs that the parser itself rejects are not counted against the macro.",
+    "recorder panic/return events + re-parse oracle + diagnostic matching on fuzzed inputs", "DESIGN.md §4 C15")
+
+reg("C20",
+    "Exploration: every corpus source is instantiated several times per crate and the workspace is compiled repeatedly under "
+    "perturbed environments, job counts and shuffled module/shard order; recorder events are grouped by (variant, attr, input) and "
+    "all outputs in a group must be identical token for token (spacing included).",
+    "Trusts the recorder; process-level nondeterminism is only sampled (k builds, tens of rustc processes).",
+    "expansion recorder + equality-per-input monitor across processes and orders", "DESIGN.md §4 C20")
+
+
 def manifest():
     hooks_commits = subprocess.run(["git", "-C", "/repo", "log", "--format=%H", "--grep=^verif hook"],
                                    stdout=subprocess.PIPE, text=True).stdout.split()
